@@ -39,9 +39,7 @@ func main() {
 	if o.Shard < 0 {
 		core.RunShards(res, core.NCPU(), nil, nil)
 		assumptions(res)
-		if core.Want("signalling") && o.Only == "" {
-			res.Assume("GAP: the maketoken/edittoken/listtokens signalling commands are not driven; they reach the token set only through token.Update(tok,\"\"), token.Get+Clone+token.Update(t,tag) and token.List, which the library alphabet drives")
-		}
+		res.Assume("GAP: the maketoken/edittoken/listtokens signalling commands are not driven; they reach the token set only through token.Update(tok,\"\"), token.Get+Clone+token.Update(t,tag) and token.List, which the library alphabet drives")
 		cleanupScratch()
 		core.Finish(res, start)
 	}
